@@ -155,6 +155,17 @@ func rebuildWarm(u *Universe, path []Op) (Driver, *Ref, error) {
 	return d, ref, nil
 }
 
+// freeAllOrNone: every free key is stored, or none is (the fullest and the emptiest contents of a window).
+func freeAllOrNone(u *Universe, ref *Ref) bool {
+	n := 0
+	for _, k := range u.Free {
+		if _, ok := ref.Get(k); ok {
+			n++
+		}
+	}
+	return n == 0 || n == len(u.Free)
+}
+
 // drainFrom replays path and then deletes every stored key one by one (ascending or descending
 // oracle order), applying the monitor's transition check and light check after every step: long
 // monotone tails through every shrink threshold and merge, from every reachable state.
@@ -725,7 +736,7 @@ func Explore(u *Universe, m Monitor, cfg Config) *Result {
 				}
 				// universes with a long setup (big fan-out windows): the tail below the free keys is the same
 				// from every state, so only the first states get the (long) drain
-				if isNew && cfg.Drain && (len(u.Setup) <= 24 || st.States+st.Variants <= 12) {
+				if isNew && cfg.Drain && (len(u.Setup) <= 24 || st.States+st.Variants <= 12 || freeAllOrNone(u, x.Ref)) {
 					for _, desc := range []bool{false, true} {
 						if dv, dpath := e.drainFrom(full, desc); dv != nil {
 							if e.report(dv, dpath, "") {
